@@ -111,6 +111,7 @@ type c04Mesh struct {
 	udpEcho  net.PacketConn
 	socks    string
 	fwd      string
+	oldStreams map[string]bool // (peer, stream) pairs that belong to earlier ops: their late frames are not this op's
 	zeroKeys atomic.Bool // active mode: zero the key fields of UDP_OPEN / UDP_OPEN_ACK
 	startErr error
 }
@@ -273,7 +274,7 @@ func c04StartMesh() *c04Mesh {
 	if err = m.a.Start(); err != nil {
 		return fail(err)
 	}
-	deadline := time.Now().Add(30 * time.Second)
+	deadline := time.Now().Add(180 * time.Second) // a healthy mesh converges in ~2 s; only a dead one pays this
 	for time.Now().Before(deadline) {
 		if m.a.Stats().RouteCount > 0 && m.a.SOCKS5Address() != nil && m.a.LookupForwardRoute("verif-echo") != nil && m.a.ForwardListenerAddress("verif-echo") != nil {
 			m.socks = m.a.SOCKS5Address().String()
@@ -286,11 +287,11 @@ func c04StartMesh() *c04Mesh {
 }
 
 func (m *c04Mesh) socksHandshake() (net.Conn, error) {
-	conn, err := net.DialTimeout("tcp", m.socks, 5*time.Second)
+	conn, err := net.DialTimeout("tcp", m.socks, 60*time.Second)
 	if err != nil {
 		return nil, err
 	}
-	conn.SetDeadline(time.Now().Add(15 * time.Second))
+	conn.SetDeadline(time.Now().Add(120 * time.Second)) // long deadline: liveness answers must not depend on machine load
 	if _, err := conn.Write([]byte{5, 1, 0}); err != nil {
 		conn.Close()
 		return nil, err
@@ -374,12 +375,12 @@ func (m *c04Mesh) tcp(payload []byte) (bool, error) {
 }
 
 func (m *c04Mesh) forward(payload []byte) (bool, error) {
-	conn, err := net.DialTimeout("tcp", m.fwd, 5*time.Second)
+	conn, err := net.DialTimeout("tcp", m.fwd, 60*time.Second)
 	if err != nil {
 		return false, err
 	}
 	defer conn.Close()
-	conn.SetDeadline(time.Now().Add(15 * time.Second))
+	conn.SetDeadline(time.Now().Add(120 * time.Second))
 	if _, err := conn.Write(payload[:1]); err != nil {
 		return false, err
 	}
@@ -398,7 +399,7 @@ func (m *c04Mesh) forward(payload []byte) (bool, error) {
 }
 
 func (m *c04Mesh) file(payload []byte) (bool, error) {
-	ctx, cancel := context.WithTimeout(context.Background(), 30*time.Second)
+	ctx, cancel := context.WithTimeout(context.Background(), 240*time.Second)
 	defer cancel()
 	m.seq++
 	local := filepath.Join(m.dir, fmt.Sprintf("up-%d.bin", m.seq))
@@ -425,7 +426,7 @@ func (m *c04Mesh) file(payload []byte) (bool, error) {
 }
 
 func (m *c04Mesh) shell(marker []byte) (bool, error) {
-	ctx, cancel := context.WithTimeout(context.Background(), 20*time.Second)
+	ctx, cancel := context.WithTimeout(context.Background(), 120*time.Second)
 	defer cancel()
 	sess, err := m.a.OpenShellStream(ctx, m.c.ID(), &shell.ShellMeta{Command: "echo", Args: []string{string(marker)}}, false)
 	if err != nil {
@@ -433,7 +434,7 @@ func (m *c04Mesh) shell(marker []byte) (bool, error) {
 	}
 	defer sess.Close()
 	var out []byte
-	deadline := time.After(10 * time.Second)
+	deadline := time.After(90 * time.Second)
 	for {
 		select {
 		case b, ok := <-sess.Receive:
@@ -462,6 +463,11 @@ func (m *c04Mesh) shell(marker []byte) (bool, error) {
 }
 
 func (m *c04Mesh) udp(payload []byte) (bool, error) {
+	// UDP may lose datagrams and a loaded machine may answer late: re-send for up to 90 s
+	return m.udpTries(payload, 45, 2*time.Second)
+}
+
+func (m *c04Mesh) udpTries(payload []byte, tries int, perTry time.Duration) (bool, error) {
 	ctl, err := m.socksHandshake()
 	if err != nil {
 		return false, err
@@ -483,11 +489,11 @@ func (m *c04Mesh) udp(payload []byte) (bool, error) {
 	ua := m.udpEcho.LocalAddr().(*net.UDPAddr)
 	hdr := append([]byte{0, 0, 0, 1}, ua.IP.To4()...)
 	hdr = append(hdr, byte(ua.Port>>8), byte(ua.Port))
-	for try := 0; try < 5; try++ {
+	for try := 0; try < tries; try++ {
 		if _, err := pc.Write(append(append([]byte{}, hdr...), payload...)); err != nil {
 			return false, err
 		}
-		pc.SetReadDeadline(time.Now().Add(3 * time.Second))
+		pc.SetReadDeadline(time.Now().Add(perTry))
 		buf := make([]byte, 65535)
 		n, err := pc.Read(buf)
 		if err != nil {
@@ -537,6 +543,15 @@ func (m *c04Mesh) summary(kind string, payload []byte, echo bool) string {
 			}
 		}
 	}
+	if m.oldStreams == nil {
+		m.oldStreams = map[string]bool{}
+	}
+	skey := func(f c04Frame) string { return fmt.Sprintf("%s/%d", f.peer.String(), f.stream) }
+	markOld := func(log []c04Frame) {
+		for _, f := range log {
+			m.oldStreams[skey(f)] = true
+		}
+	}
 	if kind == "tcpclose" {
 		m.mu.Lock()
 		n := 0
@@ -544,10 +559,11 @@ func (m *c04Mesh) summary(kind string, payload []byte, echo bool) string {
 			if len(payload) >= 8 && bytes.Contains(f.payload, payload) {
 				n++
 			}
-			if f.typ == protocol.FrameStreamData {
+			if f.typ == protocol.FrameStreamData && !m.oldStreams[skey(f)] {
 				keyChecks(f.payload)
 			}
 		}
+		markOld(m.log)
 		m.log = nil
 		m.mu.Unlock()
 		return fmt.Sprintf("ok leak %d zk %d ua %d", n, zk, ua)
@@ -560,6 +576,7 @@ func (m *c04Mesh) summary(kind string, payload []byte, echo bool) string {
 				n++
 			}
 		}
+		markOld(m.log)
 		m.log = nil
 		m.mu.Unlock()
 		e := 0
@@ -581,8 +598,10 @@ func (m *c04Mesh) summary(kind string, payload []byte, echo bool) string {
 	type dirStat struct {
 		plain int
 		seqOK bool
+		sizes map[int]bool
 	}
-	st := map[identity.AgentID]*dirStat{aID: {seqOK: true}, cID: {seqOK: true}}
+	st := map[identity.AgentID]*dirStat{aID: {seqOK: true, sizes: map[int]bool{}}, cID: {seqOK: true, sizes: map[int]bool{}}}
+	defer markOld(log)
 	if m.lastCtr == nil {
 		m.lastCtr = map[string]uint64{}
 	}
@@ -592,8 +611,8 @@ func (m *c04Mesh) summary(kind string, payload []byte, echo bool) string {
 			leak++
 		}
 		d := st[f.peer]
-		if f.typ != dataType || d == nil {
-			continue
+		if f.typ != dataType || d == nil || m.oldStreams[skey(f)] {
+			continue // other frame types; late frames of an earlier op's stream
 		}
 		body := f.payload
 		if kind == "udp" {
@@ -614,6 +633,7 @@ func (m *c04Mesh) summary(kind string, payload []byte, echo bool) string {
 			continue
 		}
 		d.plain += len(body) - crypto.EncryptionOverhead
+		d.sizes[len(body)-crypto.EncryptionOverhead] = true
 		pfx, ctr := binary.BigEndian.Uint32(body[0:4]), binary.BigEndian.Uint64(body[4:12])
 		if os.Getenv("VERIF_C04_DEBUG") != "" {
 			fmt.Fprintf(os.Stderr, "tap peer=%s stream=%d pfx=%08x ctr=%d len=%d\n", f.peer.ShortString(), f.stream, pfx, ctr, len(body))
@@ -636,6 +656,16 @@ func (m *c04Mesh) summary(kind string, payload []byte, echo bool) string {
 			return 1
 		}
 		return 0
+	}
+	if kind == "udp" {
+		// the client re-sends until the echo arrives: report the size of ONE datagram when all are alike
+		for _, d := range st {
+			if len(d.sizes) == 1 {
+				for n := range d.sizes {
+					d.plain = n
+				}
+			}
+		}
 	}
 	if structural {
 		return fmt.Sprintf("ok echo %d leak %d seq %d %d zk %d ua %d", b(echo), leak, b(st[aID].seqOK), b(st[cID].seqOK), zk, ua)
@@ -664,7 +694,7 @@ func c04Mesh3(kind string, payload []byte) string {
 		echo, err = m.udp(payload)
 	case "udpzero":
 		m.zeroKeys.Store(true)
-		echo, err = m.udp(payload)
+		echo, err = m.udpTries(payload, 2, 2*time.Second) // expected answer on a repaired tree is "no echo"
 		m.zeroKeys.Store(false)
 	case "tcpclose":
 		echo, err = m.tcpclose(payload)
